@@ -9,7 +9,7 @@ def L (l : Loc) : String := s!"{l.sl}:{l.sc}:{l.el}:{l.ec}"
 def H (b : Bytes) : String := bytesToHex b
 
 mutual
-partial def showExp : Exp → String
+def showExp : Exp → String
   | .noKey => "_"
   | .nil l => s!"(nil {L l})" | .tru l => s!"(true {L l})" | .fls l => s!"(false {L l})"
   | .vararg l => s!"(va {L l})"
@@ -27,11 +27,11 @@ partial def showExp : Exp → String
     let ms := match m with | some (n, ml) => s!"(str {H n} {L ml})" | none => "_"
     s!"(call {showExp p} {ms} [{" ".intercalate (a.map showExp)}] {L l})"
   | .bad l => s!"(bad {L l})"
-partial def showFunc : FuncBody → String
+def showFunc : FuncBody → String
   | .mk cls fn ps va colon body l =>
     let pss := ps.map fun (n, pl) => s!"{H n}@{L pl}"
     s!"(fn {H cls} {H fn} [{" ".intercalate pss}] {if va then 1 else 0} {if colon then 1 else 0} {showBlock body} {L l})"
-partial def showStat : Stat → String
+def showStat : Stat → String
   | .brk => "(break)"
   | .label n l => s!"(label {H n} {L l})"
   | .goto_ n l => s!"(goto {H n} {L l})"
@@ -49,7 +49,7 @@ partial def showStat : Stat → String
     s!"(local [{" ".intercalate nss}] [{" ".intercalate (es.map showExp)}] {L l})"
   | .localfn n nl f l => s!"(localfn {H n}@{L nl} {showFunc f} {L l})"
   | .callstat e => showExp e
-partial def showBlock : Block → String
+def showBlock : Block → String
   | .mk stats ret l =>
     let r := match ret with | none => "R_" | some es => s!"R[{" ".intercalate (es.map showExp)}]"
     s!"(block [{" ".intercalate (stats.map showStat)}] {r} {L l})"
